@@ -197,7 +197,8 @@ class C19(Check):
         okind = order_kind(a.order or range(len(img)))
         got, err = None, None
         if a.via == "main":
-            r = opstub.run_main(self.signapp.main, ["signapp.py", "hash", "-a", path])
+            r = opstub.run_main(self.signapp.main, ["signapp.py", "hash", "-a", path] +
+                                (["-v"] if a.verbose else []))
             if r.exc:
                 err = r.exc
             elif r.code != 0:
@@ -250,6 +251,7 @@ class C19(Check):
                         if i == main_at:
                             a2 = Args(a)
                             a2["via"] = "main"
+                            a2["verbose"] = ctr % 2 == 0
                             self.x_hash(a2, stats, vs)
 
     def case_variants(self, case, stats, vs):
@@ -425,7 +427,8 @@ class C19(Check):
             stream = opstub.ByteStream(label)
             inputs = {n: td.read(n, binary=True) for n in td.listing() if n in names}
             r = opstub.run_main(self.signonetime.main,
-                                ["signonetime.py", "-a", app_arg, "-p", pkpath + (" " if a.pad else "")],
+                                ["signonetime.py", "-a", app_arg, "-p", pkpath + (" " if a.pad else "")] +
+                                (["-v"] if a.verbose else []),
                                 patches=opstub.seam_urandom(stream))
             files = {n: td.read(n, binary=True) for n in td.listing()}
             written = {n: c for n, c in files.items() if inputs.get(n) != c}
@@ -574,7 +577,7 @@ class C19(Check):
         while len(images) < n:
             images.append(next(i for i in range(npool) if i not in images))
         sep = [",", ", ", " ,", " , "][v % 4]
-        self.x_onetime(Args(images=images, sep=sep, pad=v % 2 == 1,
+        self.x_onetime(Args(images=images, sep=sep, pad=v % 2 == 1, verbose=v % 4 >= 2,
                             streams=["c19-run-%d-%d-a" % (n, v), "c19-run-%d-%d-b" % (n, v)]), stats, vs)
         if v == 0:
             # an unreadable image in the list: only the leak / freshness clauses apply
